@@ -691,3 +691,12 @@ def c03_object_resolved_all_nan(rec, params):
     all_nan = any(c['dt'][0] == 'f' and c['vals'] and all(v[0] == 'nan' for v in c['vals']) for c in cols)
     sides = [rec.get('actual') or {}, rec.get('expected') or {}]
     return all_nan and any(x.get('k') == 'err' and 'AttributeError' in str(x.get('cat')) for x in sides if isinstance(x, dict))
+
+
+@classifier
+def c03_grown_row_dtype(rec, params):
+    '''the dedicated probe of the C03 check: a FrameGO grown by appending a column of another dtype reads its rows as object'''
+    case = rec.get('case') or {}
+    a = rec.get('actual') or {}
+    return case.get('probe') == 'grown_row_dtype' and a.get('grown_values_dtype') == ['O', 0] and a.get('columns_equal') is True
+
